@@ -16,7 +16,9 @@ PKG = "github.com/JesseCoretta/go-stackage."
 UNLOCKED_READERS = {"Stack.IsInit", "Stack.getState", "Stack.IsEmpty", "Stack.Len", "Stack.IsZero", "Stack.SetMutex"}
 # private functions whose bodies run under the lock
 LOCKED_WRITERS = {"(*stack).push", "(*stack).genericAppend", "(*stack).methodAppend", "(*stack).pop", "(*stack).insert", "(*stack).remove",
-                  "(*stack).replace", "(*stack).swap", "(*stack).reverse", "(*stack).reset", "(*stack).lock", "(*stack).unlock"}
+                  "(*stack).replace", "(*stack).swap", "(*stack).reverse", "(*stack).reset", "(*stack).lock", "(*stack).unlock",
+                  # the three option writers (lock(), then the write to the option word; exercised by the toggle rounds of the stress)
+                  "(*stack).toggleOpt", "(*stack).setOpt", "(*stack).unsetOpt"}
 
 
 def parse_races(stderr):
